@@ -162,6 +162,11 @@ def run(tier, seed):
         for s in range(directed + ns):
             reqs.append(f"gen {c['key']} {(seed * 1000003 + s * 7919 + 1) % (1 << 62)} {4 if s % 3 else 9} {s if s < directed else 1000000}")
             meta.append(c)
+        if "arrv" in toks:
+            # counted arrays with exactly 255 / 256 / 257 elements: the boundaries of a one-byte count (narrower than many count fields)
+            for L_ in (255, 256, 257):
+                reqs.append(f"gen {c['key']} {(seed * 1000003 + L_) % (1 << 62)} {1000 + L_} 1000000")
+                meta.append(c)
     gen = d.ask_many(reqs)
     d.close()
     unsupported = collections.Counter()
@@ -173,6 +178,8 @@ def run(tier, seed):
             continue
         body = bytes.fromhex(g.split()[1]) if g.split()[1] != "-" else b""
         for dr in directions(c):
+            if len(body) > (10000 if dr == "client" else 60000):
+                continue            # beyond what the header / the client size cap can carry (long arrays of large elements)
             fr = frame(libname(c), dr, c["opcode"], body)
             if (c["key"], dr, fr) in distinct:
                 continue
